@@ -98,6 +98,89 @@ def _closure_called(f, t):
     return None
 
 
+def _closure_of_operand(f, op):
+    """id of the closure body when the operand is a closure value built in f (through copies / borrows)"""
+    pl = (op.get("mv") or op.get("cp")) if isinstance(op, dict) else None
+    seen = set()
+    while pl is not None and pl["l"] not in seen:
+        seen.add(pl["l"])
+        defs = [st for blk in f["blocks"] for st in blk["s"] if st["k"] == "assign" and st["lhs"]["l"] == pl["l"] and not st["lhs"].get("p")]
+        if len(defs) != 1:
+            return None
+        rv = defs[0]["rv"]
+        if rv["k"] == "agg" and "closure_fn" in rv:
+            return rv["closure_fn"]
+        if rv["k"] == "use":
+            pl = rv["op"].get("mv") or rv["op"].get("cp")
+        elif rv["k"] == "ref":
+            pl = rv["pl"]
+        else:
+            return None
+    return None
+
+
+# `opt.map(|x| ..)`, `res.and_then(|x| ..)`: (enum, variant whose payload the closure receives, its index, the result is wrapped again)
+COMBINATORS = (
+    (r"^std::option::Option::<.*>::map::<", "std::option::Option", "Some", 1, True),
+    (r"^std::option::Option::<.*>::and_then::<", "std::option::Option", "Some", 1, False),
+    (r"^std::result::Result::<.*>::map::<", "std::result::Result", "Ok", 0, True),
+    (r"^std::result::Result::<.*>::and_then::<", "std::result::Result", "Ok", 0, False),
+)
+
+
+def _expand_combinator(fns, f, i, transparent):
+    """rewrite `dest = opt.map(closure)` (closure built in this body and new relative to the baseline) into what it does:
+    a branch on the variant, a direct call of the closure on the payload, the result wrapped again -- the direct call is
+    then inlined like any other. Returns True when block i was rewritten."""
+    import re as _re
+    blk = f["blocks"][i]
+    t = blk["t"]
+    c = t.get("callee") or {}
+    path = str(c.get("path") or c.get("def") or "")
+    spec = next((x for x in COMBINATORS if _re.search(x[0], path)), None)
+    if spec is None or len(t.get("args", [])) != 2 or t.get("t") is None or t["dest"].get("p"):
+        return False
+    cid = _closure_of_operand(f, t["args"][1])
+    if cid is None or not (cid in transparent or fns[cid].get("parent") in transparent or f["id"] in transparent_hosts):
+        return False
+    src = t["args"][0].get("mv") or t["args"][0].get("cp")
+    if src is None or src.get("p"):
+        return False
+    _, enum, variant, vidx, wrap = spec
+    other_idx = 1 - vidx
+    ln = t.get("ln")
+    L = len(f["locals"])
+    for nm in ("discr", "payload", "args", "ret", "rest"):
+        f["locals"].append({"ty": "?", "syn": "combinator:" + nm})
+    d, pay, tup, ret, rest = L, L + 1, L + 2, L + 3, L + 4
+    n = len(f["blocks"])
+    bS, bW, bN, bU = n, n + 1, n + 2, n + 3
+    cont, unw, dest = t["t"], t.get("unwind"), t["dest"]
+    proj = lambda idx, name: [{"down": idx, "n": name}, {"f": 0, "n": "0", "of": enum}]
+    blk["s"].append({"k": "assign", "lhs": {"l": d}, "rv": {"k": "discr", "pl": {"l": src["l"]}, "of": f["locals"][src["l"]].get("ty") or enum}, "ln": ln})
+    targets = [bN, bS] if vidx == 1 else [bS, bN]
+    blk["t"] = {"k": "switch", "op": {"mv": {"l": d}}, "vals": [0, 1], "targets": targets, "otherwise": bU, "op_ty": "isize", "ln": ln, "expanded": path}
+    call = {"k": "call", "func": {"c": {"fn": "std::ops::FnOnce::call_once"}}, "args": [copy.deepcopy(t["args"][1]), {"mv": {"l": tup}}], "dest": {"l": ret}, "t": bW,
+            "callee": {"def": "std::ops::FnOnce::call_once", "path": "<closure as std::ops::FnOnce<(payload,)>>::call_once", "krate": "core"}, "ln": ln}
+    if unw is not None:
+        call["unwind"] = unw
+    f["blocks"].append({"s": [{"k": "assign", "lhs": {"l": pay}, "rv": {"k": "use", "op": {"mv": {"l": src["l"], "p": proj(vidx, variant)}}}, "ln": ln},
+                              {"k": "assign", "lhs": {"l": tup}, "rv": {"k": "agg", "ak": "tuple", "fields": [{"mv": {"l": pay}}]}, "ln": ln}], "t": call})
+    if wrap:
+        wrapped = {"k": "agg", "ak": "adt", "adt": enum, "variant": variant, "variant_idx": vidx, "fnames": ["0"], "fields": [{"mv": {"l": ret}}]}
+    else:
+        wrapped = {"k": "use", "op": {"mv": {"l": ret}}}
+    f["blocks"].append({"s": [{"k": "assign", "lhs": copy.deepcopy(dest), "rv": wrapped, "ln": ln}], "t": {"k": "goto", "t": cont, "ln": ln}})
+    if enum.endswith("Option"):
+        none = [{"k": "assign", "lhs": copy.deepcopy(dest), "rv": {"k": "agg", "ak": "adt", "adt": enum, "variant": "None", "variant_idx": 0, "fnames": [], "fields": []}, "ln": ln}]
+    else:
+        none = [{"k": "assign", "lhs": {"l": rest}, "rv": {"k": "use", "op": {"mv": {"l": src["l"], "p": proj(1, "Err")}}}, "ln": ln},
+                {"k": "assign", "lhs": copy.deepcopy(dest), "rv": {"k": "agg", "ak": "adt", "adt": enum, "variant": "Err", "variant_idx": 1, "fnames": ["0"], "fields": [{"mv": {"l": rest}}]}, "ln": ln}]
+    f["blocks"].append({"s": none, "t": {"k": "goto", "t": cont, "ln": ln}})
+    f["blocks"].append({"s": [], "t": {"k": "unreachable", "ln": ln}})
+    return True
+
+
 def inline_into(fns, f, transparent, depth=0, stack=()):
     """inline (in place) the calls of f to transparent functions; returns the list of inlined callee names"""
     done = []
@@ -105,6 +188,10 @@ def inline_into(fns, f, transparent, depth=0, stack=()):
     while i < len(f["blocks"]):
         blk = f["blocks"][i]
         t = blk["t"]
+        if t["k"] == "call" and not blk.get("cleanup") and _expand_combinator(fns, f, i, transparent):
+            done.append("combinator:" + str((t.get("callee") or {}).get("path"))[:60])
+            i += 1
+            continue
         g_id = _callee_fn(t) if t["k"] == "call" else None
         untuple = False
         if g_id is not None and fns[g_id].get("kind") == "closure":
